@@ -35,6 +35,9 @@ const (
 	dMode
 	dBlock
 	dUnblock
+	dWait
+	dFlushF // ForceFlush whose marker cannot be queued (queue full, worker stuck) before its context ends:
+	// it goes on to export without a marker; its helper goroutine outlives the call and exports later
 )
 
 type dop struct {
@@ -43,8 +46,11 @@ type dop struct {
 	smp  bool
 	ok   bool // dMode
 	var_ int  // dEnd: flag byte / path variant (see rig.end); not visible to the model
+	via  bool // flush / shutdown through the TracerProvider instead of directly on the processor
+	kind2 int // dMode: exporter flavour (ok: 1 = slow, ignores ctx beyond the export timeout; err: 1 = returns context.DeadlineExceeded, 2 = honours ctx until the export timeout fires)
 	// filled by the simulation
 	wantEntries int  // exporter entries expected to have begun after this op
+	wantSpans   int  // timer programs: spans that must have been handed over once the batch timer has fired
 	realTimeout bool // dShutdownX / dFlushT: use a real short timeout instead of a cancelled / lazily cancelled context
 }
 
@@ -56,8 +62,8 @@ func (o dop) coq() string {
 		return "DFlush"
 	case dFlushX:
 		return "DFlushX"
-	case dFlushT:
-		return "DFlushT"
+	case dFlushT, dFlushF:
+		return "DFlushT" // same call in the model; which select branch is taken follows from the queue being full
 	case dShutdown:
 		return "DShutdown"
 	case dShutdownX:
@@ -66,6 +72,8 @@ func (o dop) coq() string {
 		return "DMode " + vgen.Bool(o.ok)
 	case dBlock:
 		return "DBlock"
+	case dWait:
+		return "DWait"
 	}
 	return "DUnblock"
 }
@@ -91,6 +99,7 @@ type sim struct {
 	unk      int // items enqueued after the last item known to be consumed
 	drops    int
 	nid      int
+	loose    bool // a flush helper is left behind: batches may be cut earlier than predicted (judged as CDetT)
 }
 
 func (s *sim) export(k int) {
@@ -99,7 +108,9 @@ func (s *sim) export(k int) {
 	}
 	s.entries++
 	s.batch = 0
-	s.unk = len(s.q)
+	if !s.loose {
+		s.unk = len(s.q)
+	}
 	if s.mode == modeBlock {
 		s.stuck = true
 		s.cont = k
@@ -175,6 +186,8 @@ func (s *sim) allowed(k int, smp bool) bool {
 		return true
 	case dFlushT:
 		return s.stopped || (s.stuck && len(s.q) < s.c.qcap)
+	case dFlushF:
+		return !s.stopped && s.stuck && len(s.q) >= s.c.qcap
 	case dShutdown:
 		return s.onceDone || (!s.stuck && s.mode != modeBlock)
 	case dShutdownX:
@@ -182,7 +195,7 @@ func (s *sim) allowed(k int, smp bool) bool {
 	case dMode:
 		return s.mode != modeBlock
 	case dBlock:
-		return s.mode != modeBlock && !s.fin
+		return s.mode != modeBlock && !s.fin && !s.loose
 	case dUnblock:
 		return s.mode == modeBlock
 	}
@@ -214,6 +227,8 @@ func (s *sim) apply(o *dop) {
 		if !s.stopped {
 			s.enqueue(-1)
 		}
+	case dFlushF:
+		s.loose = true
 	case dShutdown:
 		if !s.onceDone {
 			s.stopped = true
@@ -273,6 +288,12 @@ func genProgram(r *vgen.Rand, c cfg, n int) ([]dop, *sim) {
 		default:
 			o = dop{kind: dUnblock}
 		}
+		if o.kind == dFlushT && s.allowed(dFlushF, false) && r.Chance(2, 3) {
+			o = dop{kind: dFlushF}
+		}
+		if s.loose && o.kind == dMode && !o.ok {
+			continue // whether a later flush's own export is empty depends on when the left-behind helper ran
+		}
 		if !s.allowed(o.kind, o.smp) {
 			// prefer an op that moves the state on rather than giving up
 			if o.kind == dEnd && !s.stuck && s.allowed(dFlush, false) && r.Chance(1, 2) {
@@ -313,6 +334,9 @@ func genProgram(r *vgen.Rand, c cfg, n int) ([]dop, *sim) {
 					s.nid++
 					push(e)
 				}
+				if s.allowed(dFlushF, false) && r.Chance(1, 3) {
+					push(dop{kind: dFlushF})
+				}
 			}
 		}
 	}
@@ -332,31 +356,41 @@ type lazyCtx struct {
 	context.Context
 	cancel context.CancelFunc
 	n      atomic.Int32
+	at     int32 // cancelled when Done() is asked for the at-th time
 }
 
 func (c *lazyCtx) Done() <-chan struct{} {
-	if c.n.Add(1) == 2 {
+	if c.n.Add(1) == c.at {
 		c.cancel()
 	}
 	return c.Context.Done()
 }
 
-func newLazyCtx() *lazyCtx {
+func newLazyCtx() *lazyCtx { return newLazyCtxAt(2) }
+
+func newLazyCtxAt(at int32) *lazyCtx {
 	ctx, cancel := context.WithTimeout(context.Background(), 300*time.Millisecond)
-	return &lazyCtx{Context: ctx, cancel: cancel}
+	return &lazyCtx{Context: ctx, cancel: cancel, at: at}
 }
 
 // Watchdog of one deterministic op (expected: well under a millisecond).  A mutated or
 // broken implementation can make any call hang; the program is then abandoned and the
 // case reported through the comparison with the model.  After several abandoned
 // programs the watchdog is shortened so that the run stays within its budget.
-var detWatchdog = 2 * time.Second
+var detWatchdog = 8 * time.Second
+
+// timer programs: a 1-2 ms BatchTimeout is awaited for up to 5000x its value; not seeing the export is
+// "inconclusive" (machine overloaded, or the timer path is broken - no clause of C01 is about timer liveness)
+var timerWatchdog = 10 * time.Second
+var timerMisses = 0
 var detDesyncs = 0
 
 type detResult struct {
 	rets   []int
 	evs    []event
 	desync string
+	inconclusive string // a timer-driven export was not seen within the (generous) watchdog: the program is cut there
+	ops          []dop  // the ops actually executed (a timer program is cut at an unseen timer export and closed with a Shutdown)
 }
 
 // within runs f and reports whether it returned before the watchdog.
@@ -371,43 +405,73 @@ func within(d time.Duration, f func()) bool {
 	}
 }
 
-func execProgram(c cfg, ops []dop) (res detResult) {
-	rg := newRig(c, time.Hour, time.Hour)
+// detSetup: per-program settings outside the model's view.
+type detSetup struct {
+	batchTimeout  time.Duration // 1h (timers off) or a short real one (timer programs, judged loosely)
+	exportTimeout time.Duration // 1h, 0 (no export deadline) or 3ms (fires against a slow / ctx-honouring exporter)
+	literalOpts   bool
+}
+
+func (d detSetup) desc() string {
+	return fmt.Sprintf("batchTimeout=%s exportTimeout=%s literalOptionFunc=%v", d.batchTimeout, d.exportTimeout, d.literalOpts)
+}
+
+func execProgram(c cfg, ops []dop, su detSetup) (res detResult) {
+	rg := newRigOpts(c, su.batchTimeout, su.exportTimeout, rigOpts{literalOpts: su.literalOpts})
 	g := rg.g
+	g.slow = 2*su.exportTimeout + time.Millisecond
+	wantSpans := 0
 	for i := range ops {
 		o := &ops[i]
 		ret := -1
-		returned := within(detWatchdog, func() {
+		wd := detWatchdog
+		if o.kind == dWait {
+			wd = timerWatchdog + 2*time.Second
+		}
+		returned := within(wd, func() {
 			switch o.kind {
 			case dEnd:
 				rg.end(o.id, o.smp, o.var_)
 			case dFlush:
-				ret = rg.flush(context.Background())
+				ret = rg.flush(context.Background(), o.via)
 			case dFlushX:
 				ctx, cancel := context.WithCancel(context.Background())
 				cancel()
-				ret = rg.flush(ctx)
+				ret = rg.flush(ctx, o.via)
 			case dFlushT:
 				ctx := newLazyCtx()
 				ret = rg.flush(ctx)
 				ctx.cancel()
+			case dFlushF:
+				// alive at the entry check, done at the first select (the send cannot proceed: queue full, worker stuck)
+				ctx := newLazyCtxAt(1)
+				ret = rg.flush(ctx)
+				ctx.cancel()
 			case dShutdown:
-				ret = rg.shutdown(context.Background())
+				ret = rg.shutdown(context.Background(), o.via)
 			case dShutdownX:
 				if o.realTimeout {
 					ctx, cancel := context.WithTimeout(context.Background(), 50*time.Millisecond)
-					ret = rg.shutdown(ctx)
+					ret = rg.shutdown(ctx, o.via)
 					cancel()
 				} else {
 					ctx, cancel := context.WithCancel(context.Background())
 					cancel()
-					ret = rg.shutdown(ctx)
+					ret = rg.shutdown(ctx, o.via)
 				}
 			case dMode:
 				if o.ok {
+					g.setKinds(o.kind2, 0)
 					g.setMode(modeOK)
 				} else {
+					g.setKinds(0, o.kind2)
 					g.setMode(modeErr)
+				}
+			case dWait:
+				// one-sided: wait until the timer-driven exports have happened; never judged by time
+				want := wantSpans
+				if !g.waitFor(func() bool { return g.nSpans >= want }, timerWatchdog) {
+					res.inconclusive = fmt.Sprintf("op %d (DWait): %d spans expected from timer-driven exports, %d seen within %s", i, want, g.nSpans, timerWatchdog)
 				}
 			case dBlock:
 				g.setMode(modeBlock)
@@ -419,6 +483,32 @@ func execProgram(c cfg, ops []dop) (res detResult) {
 			res.desync = fmt.Sprintf("op %d (%s) did not return within %s", i, o.coq(), detWatchdog)
 			break
 		}
+		if res.inconclusive != "" {
+			timerMisses++
+			if timerMisses >= 2 {
+				timerWatchdog = 200 * time.Millisecond
+			}
+			cutOps := append([]dop(nil), ops[:i+1]...)
+			stopped := false
+			for _, q := range cutOps {
+				if q.kind == dShutdown {
+					stopped = true
+				}
+			}
+			if !stopped {
+				fin := dop{kind: dShutdown}
+				var rv int
+				if !within(detWatchdog, func() { rv = rg.shutdown(context.Background()) }) {
+					res.desync = "the closing Shutdown of a cut timer program did not return"
+				} else {
+					res.rets = append(res.rets, rv)
+				}
+				cutOps = append(cutOps, fin)
+			}
+			ops = cutOps
+			break
+		}
+		wantSpans = o.wantSpans
 		if ret >= 0 {
 			res.rets = append(res.rets, ret)
 		}
@@ -428,6 +518,9 @@ func execProgram(c cfg, ops []dop) (res detResult) {
 			break
 		}
 	}
+	// Nothing is claimed about WHEN the timer fires: a timer program whose timer export was not seen is cut
+	// there and closed by a Shutdown (above); the executed ops are what the model is run on.
+	res.ops = ops
 	if res.desync != "" {
 		// get the processor out of the way; the case is reported through the comparison
 		g.unblock()
@@ -456,7 +549,13 @@ func execProgram(c cfg, ops []dop) (res detResult) {
 	return res
 }
 
-func emitDet(w *vgen.Writer, c cfg, ops []dop, res detResult, kind string) {
+func emitDet(w *vgen.Writer, c cfg, ops []dop, su detSetup, res detResult, kind string) {
+	if res.inconclusive != "" {
+		w.Tally("det:timer-export-not-seen(program cut)")
+	}
+	if res.ops != nil {
+		ops = res.ops
+	}
 	evs := withDrops(c, res.evs)
 	dobs := dropsObserved(evs)
 	var opsS, retsS, bs []string
@@ -489,7 +588,37 @@ func emitDet(w *vgen.Writer, c cfg, ops []dop, res detResult, kind string) {
 	}
 	term := vgen.App("CDet", coqCfg(c), vgen.Bool(dobs), "["+strings.Join(opsS, "; ")+"]",
 		"["+strings.Join(retsS, "; ")+"]", "["+strings.Join(bs, "; ")+"]", strconv.Itoa(nsd), coqHistory(evs))
+	hasF := false
+	for _, o := range ops {
+		if o.kind == dFlushF {
+			hasF = true
+			w.Tally("det:flush-without-marker")
+		}
+	}
+	if su.batchTimeout < time.Second || hasF {
+		var all []int
+		for _, e := range evs {
+			if e.kind == evBegin {
+				all = append(all, e.batch...)
+			}
+		}
+		term = vgen.App("CDetT", coqCfg(c), vgen.Bool(dobs), "["+strings.Join(opsS, "; ")+"]",
+			"["+strings.Join(retsS, "; ")+"]", coqIDs(all), strconv.Itoa(nsd), coqHistory(evs))
+	}
+	var details []string
+	for i, o := range ops {
+		if o.via {
+			details = append(details, fmt.Sprintf("op%d:via-provider", i))
+			w.Tally("det:via-provider")
+		}
+		if o.kind == dMode && o.kind2 != 0 {
+			details = append(details, fmt.Sprintf("op%d:exporter-flavour-%v-%d", i, o.ok, o.kind2))
+			w.Tally(fmt.Sprintf("det:exporter-flavour ok=%v kind=%d", o.ok, o.kind2))
+		}
+	}
+	w.Tally("det:exportTimeout=" + su.exportTimeout.String())
 	desc := map[string]any{"fragment": "deterministic", "qcap": c.qcap, "maxBatch": c.maxb, "blocking": c.blocking,
+		"setup": su.desc(), "details": details,
 		"ops": opsS, "span_flags": flagsS, "returns": retsS, "batches": bs, "history": descHistory(evs)}
 	if res.desync != "" {
 		desc["desync"] = res.desync
@@ -520,15 +649,16 @@ func runDet(w *vgen.Writer, r *vgen.Rand, n int) {
 		}()
 		f()
 	}
-	runOne := func(c cfg, ops []dop, kind string) {
-		desc := map[string]any{"fragment": "deterministic", "cfg": fmt.Sprint(c)}
+	runOne := func(c cfg, ops []dop, su detSetup, kind string) {
+		desc := map[string]any{"fragment": "deterministic", "cfg": fmt.Sprint(c), "setup": su.desc()}
 		guard(desc, func() {
-			res := execProgram(c, ops)
-			emitDet(w, c, ops, res, kind)
+			res := execProgram(c, ops, su)
+			emitDet(w, c, ops, su, res, kind)
 		})
 	}
+	plain := detSetup{batchTimeout: time.Hour, exportTimeout: time.Hour}
 	// fixed corpus, run first on every run
-	for _, p := range corpusPrograms() {
+	for k, p := range corpusPrograms() {
 		s := &sim{c: p.c}
 		ops := append([]dop(nil), p.ops...)
 		for i := range ops {
@@ -537,18 +667,178 @@ func runDet(w *vgen.Writer, r *vgen.Rand, n int) {
 				ops[i].var_ = (s.nid*3 + len(p.ops)) % 8
 				s.nid++
 			}
+			if ops[i].kind == dFlush || ops[i].kind == dShutdown || ops[i].kind == dShutdownX {
+				ops[i].via = (i+k)%3 == 0
+			}
 			if !s.allowed(ops[i].kind, ops[i].smp) {
 				panic("corpus program is not deterministic: " + p.name)
 			}
 			s.apply(&ops[i])
 		}
-		runOne(p.c, ops, "det-corpus")
+		su := plain
+		su.literalOpts = k%2 == 1
+		runOne(p.c, ops, su, "det-corpus")
 	}
 	for i := 0; i < n; i++ {
 		qc := r.Range(1, 8)
 		c := cfg{qcap: qc, maxb: r.Range(1, qc+2), blocking: r.Chance(2, 5)}
+		su := plain
+		switch r.Intn(20) {
+		case 0, 1, 2:
+			su.exportTimeout = 0 // no deadline on the export context
+		case 3, 4, 5, 6, 7:
+			su.exportTimeout = 3 * time.Millisecond // fires against slow / ctx-honouring exporter flavours
+		}
+		su.literalOpts = r.Chance(1, 4)
 		ops, _ := genProgram(r, c, r.Range(4, 26))
-		runOne(c, ops, "det")
+		decorate(r, ops, su)
+		runOne(c, ops, su, "det")
+	}
+	// short real BatchTimeout: the timer path of processQueue, judged one-sidedly (CDetT)
+	nT := n / 6
+	for i := 0; i < nT; i++ {
+		qc := r.Range(1, 8)
+		c := cfg{qcap: qc, maxb: r.Range(1, qc+2), blocking: r.Chance(2, 5)}
+		su := detSetup{batchTimeout: time.Duration(r.Range(1, 2)) * time.Millisecond, exportTimeout: time.Hour, literalOpts: r.Chance(1, 4)}
+		if r.Chance(1, 4) {
+			su.exportTimeout = 3 * time.Millisecond
+		}
+		ops := genTimerProgram(r, c, r.Range(4, 18), su)
+		runOne(c, ops, su, "det-timer")
+	}
+	runNilExporter(w, r, max(3, n/60))
+}
+
+// decorate adds what the model does not see: which entry point a ForceFlush / Shutdown uses and the
+// flavour of the exporter's ok / err answers.
+func decorate(r *vgen.Rand, ops []dop, su detSetup) {
+	short := su.exportTimeout > 0 && su.exportTimeout < time.Second
+	// Once the PROVIDER has been shut down it has no processors left and its ForceFlush returns nil
+	// without looking at the context, where the processor's own ForceFlush reports the cancelled
+	// context; C01 does not constrain that return, so such calls stay on the processor.
+	provDown := false
+	for i := range ops {
+		o := &ops[i]
+		switch o.kind {
+		case dFlush, dFlushX, dShutdown, dShutdownX:
+			o.via = r.Chance(1, 3)
+			if o.kind == dFlushX && provDown {
+				o.via = false
+			}
+			if o.via && (o.kind == dShutdown || o.kind == dShutdownX) {
+				provDown = true
+			}
+		case dMode:
+			if o.ok {
+				if short && r.Chance(1, 2) {
+					o.kind2 = 1
+				}
+			} else {
+				switch x := r.Intn(4); {
+				case x == 0:
+					o.kind2 = 1
+				case x == 1 && short:
+					o.kind2 = 2
+				}
+			}
+		}
+	}
+}
+
+// genTimerProgram: no blocking gate and no failing exporter (whether a flush's own export is empty
+// depends on where the timer cut), bursts bounded so that no End can find the queue full.
+func genTimerProgram(r *vgen.Rand, c cfg, n int, su detSetup) []dop {
+	var ops []dop
+	nid, unk, want := 0, 0, 0
+	stopped, provDown := false, false
+	add := func(o dop) {
+		o.wantSpans = want
+		ops = append(ops, o)
+	}
+	if su.exportTimeout < time.Second && r.Bool() {
+		add(dop{kind: dMode, ok: true, kind2: 1})
+	}
+	for len(ops) < n {
+		switch x := r.Intn(100); {
+		case x < 55:
+			smp := !r.Chance(1, 8)
+			if !stopped && smp {
+				if !c.blocking && unk >= c.qcap {
+					continue
+				}
+				unk++
+				want++
+			}
+			add(dop{kind: dEnd, id: nid, smp: smp, var_: r.Intn(8)})
+			nid++
+		case x < 80:
+			if stopped {
+				continue
+			}
+			unk = 0
+			add(dop{kind: dWait})
+		case x < 90:
+			unk = 0
+			add(dop{kind: dFlush, via: r.Chance(1, 3)})
+		case x < 94:
+			add(dop{kind: dFlushX, via: !provDown && r.Chance(1, 3)})
+		default:
+			stopped = true
+			unk = 0
+			via := r.Chance(1, 3)
+			provDown = provDown || via
+			add(dop{kind: dShutdown, via: via})
+		}
+	}
+	if !stopped {
+		add(dop{kind: dShutdown})
+	}
+	return ops
+}
+
+// runNilExporter: NewBatchSpanProcessor(nil) "performs no action": Ends, ForceFlush and Shutdown return
+// (nil) without panicking.  Judged directly (there is no exporter to observe and no model of this mode).
+func runNilExporter(w *vgen.Writer, r *vgen.Rand, n int) {
+	for i := 0; i < n; i++ {
+		qc := r.Range(1, 4)
+		c := cfg{qcap: qc, maxb: r.Range(1, qc+1), blocking: r.Bool()}
+		desc := map[string]any{"fragment": "nil exporter", "cfg": fmt.Sprint(c)}
+		func() {
+			defer func() {
+				if e := recover(); e != nil {
+					w.Violation(fmt.Sprintf("nil exporter: panic: %v", e), desc)
+				}
+			}()
+			rg := newRigOpts(c, time.Millisecond, time.Hour, rigOpts{nilExporter: true, literalOpts: r.Bool()})
+			bad := ""
+			ok := within(timerWatchdog, func() {
+				for k := 0; k < qc+3; k++ { // more Ends than the queue holds: nothing may be queued (or block)
+					rg.end(k, true, r.Intn(8))
+				}
+				if rv := rg.flush(context.Background(), r.Bool()); rv != rNil {
+					bad = "ForceFlush returned an error"
+				}
+				rg.end(100, true, 4)
+				if rv := rg.shutdown(context.Background(), r.Bool()); rv != rNil {
+					bad = "Shutdown returned an error"
+				}
+				rg.end(101, true, 5)
+				if rv := rg.flush(context.Background()); rv != rNil {
+					bad = "ForceFlush after Shutdown returned an error"
+				}
+				if rv := rg.shutdown(context.Background()); rv != rNil {
+					bad = "second Shutdown returned an error"
+				}
+			})
+			switch {
+			case !ok:
+				w.Tally("nilexp:inconclusive-timeout")
+			case bad != "":
+				w.Violation("nil exporter: "+bad, desc)
+			default:
+				w.Tally("nilexp:ok")
+			}
+		}()
 	}
 }
 
